@@ -631,6 +631,190 @@ def corr_scenarios(g, rng, count):
     return scs
 
 
+
+# ---------------------------------------------------------------------------------------------- residual identity / optimality
+def krylov_ls_residual(As, b, j):
+    """Independent oracle for MINRES optimality: min ||b - As x|| over x in span{b, As b, ..., As^(j-1) b}
+    (orthonormal basis by Gram-Schmidt with re-orthogonalisation, dense least squares)."""
+    n = b.shape[0]
+    V = []
+    v = b.clone()
+    for _ in range(min(j, n)):
+        for _rep in range(2):
+            for u in V:
+                v = v - (u @ v) * u
+        nv = float(v.norm())
+        if nv < 1e-10 * float(b.norm()):
+            break
+        v = v / nv
+        V.append(v)
+        v = As @ v
+    Vm = torch.stack(V, dim=1)
+    y = torch.linalg.lstsq(As @ Vm, b.unsqueeze(-1)).solution
+    return float((b - (As @ Vm @ y).squeeze(-1)).norm())
+
+
+def check_residual_identity(chk, g, rng, consts, count):
+    """Ties `minres_residual_norm` / `minres_optimal` to the real code (no preconditioner, iteration counts below the size, so
+    that neither the clamp nor loss of orthogonality interferes): the true residual norm ||rhs - (value K + s I) x|| of the
+    vector returned by the REAL minres after j iterations equals |scale_prev| * rhs_norm of the Lean model after j iterations,
+    and equals the least-squares optimum over the j-dimensional Krylov space (independent dense oracle)."""
+    scs = []
+    for i in range(count):
+        n = rng.choice([3, 4, 5, 6, 7, 8, 9])
+        fam = rng.choice(FAMS)
+        kappa = rng.choice([3.0, 10.0, 100.0])
+        ab = rng.choice([(), (), (2,)])
+        value = rng.choice([None, None, -1.0, 2.0])
+        sk = ["none", "scalar", "vec", "batched", "vec1"][i % 5]
+        m = rng.randrange(1, n - 1)            # the loop runs m + 2 <= n iterations, all below the 10th (no convergence test)
+        pre = "none" if i % 4 else rng.choice(["jacobi", "spd"])   # every 4th case preconditioned: M^-1-norm identity for the pencil value K + s P
+        if pre != "none" and value is not None and value < 0:
+            value = None
+        scs.append(make_scenario(g, n, fam, kappa, F64, abatch=ab, cols=rng.choice([1, 2]), shift_kind=sk, pre=pre, value=value, max_iter=m))
+    impls = [run_impl(sc) for sc in scs]
+    outs = chk.run_driver("C11", [model_line(sc, 1.0, consts) for sc in scs])
+    if outs is None:
+        return
+    for sc, r, out in zip(scs, impls, outs):
+        cell = cell_of(sc, "resid-identity")
+        chk.case(cell + "|" + bits(float(sc["rhs"].double().sum())), nontrivial=True)
+        d = parse_model(out)
+        pl = payload_of(sc, {"check": "resid"})
+        if r.err is not None or "scales" not in d or "iters" not in d:
+            chk.corr_break(cell, f"no result to compare: implementation error {r.err}, driver output {out[:60]!r}", pl)
+            continue
+        j = r.iters
+        if j != int(d["iters"]):
+            chk.corr_break(cell, f"iteration count: implementation {j}, model {d['iters']}", pl)
+            continue
+        A, rhs = sc["A"].double(), sc["rhs"].double()
+        n, c = rhs.shape[-2], rhs.shape[-1]
+        bshape = tuple(torch.broadcast_shapes(A.shape[:-2], rhs.shape[:-2]))
+        Ab = A.expand(*bshape, n, n).reshape(-1, n, n)
+        rb = rhs.expand(*bshape, n, c).reshape(-1, n, c)
+        sh = padded_shifts(sc.get("shifts"), len(bshape) + 2)
+        shb = sh.expand(sh.shape[0], *bshape, 1, 1).reshape(sh.shape[0], -1)
+        got = r.result.double()
+        if sc.get("shifts") is None or sc["shifts"].numel() == 1:
+            got = got.unsqueeze(0)
+        Q = got.shape[0]
+        gb = got.reshape(Q, -1, n, c)
+        val = 1.0 if sc.get("value") is None else float(sc["value"])
+        Pb = sc["P"].double().expand(*bshape, n, n).reshape(-1, n, n) if sc.get("P") is not None else None
+        Mb = sc["Minv"].double().expand(*bshape, n, n).reshape(-1, n, n) if sc.get("Minv") is not None else None
+        mscales = [dec_vec(col) for col in d["scales"].split("|")]
+        bad = None
+        for k in range(Ab.shape[0]):
+            for jc in range(c):
+                b = rb[k, :, jc]
+                bn = float(b.norm())
+                for q in range(Q):
+                    if Pb is None:
+                        As = val * Ab[k] + float(shb[q, k]) * torch.eye(n, dtype=F64)
+                        rn = float((b - As @ gb[q, k, :, jc]).norm())
+                        opt = krylov_ls_residual(As, b, j)
+                    else:
+                        # theorem minres_residual_norm_preconditioned: M^-1-norm of the residual of the pencil value K + s P
+                        As = val * Ab[k] + float(shb[q, k]) * Pb[k]
+                        rv = b - As @ gb[q, k, :, jc]
+                        rn = math.sqrt(max(0.0, float(rv @ (Mb[k] @ rv))))
+                        opt = rn
+                        chk.count("resid_identity_preconditioned")
+                    ms = abs(mscales[k * c + jc][q])
+                    chk.count("resid_identity_entries")
+                    if rn > 1e-4 * bn:
+                        chk.count("resid_identity_nontrivial")
+                    bnm = bn if Pb is None else math.sqrt(float(b @ (Mb[k] @ b)))
+                    if not abs(rn - ms) <= 1e-7 * max(bn, bnm):
+                        bad = bad or f"true residual norm of the returned solution {rn!r} != |scale_prev|*rhs_norm of the model {ms!r} (shift {q}, column {k * c + jc}, {j} iterations, preconditioner {sc.get('pre')})"
+                    if not abs(rn - opt) <= 1e-7 * bn:
+                        bad = bad or f"residual norm {rn!r} is not the Krylov least-squares optimum {opt!r} (shift {q}, column {k * c + jc}, {j} iterations)"
+        if bad:
+            chk.corr_break(cell, bad, pl)
+        else:
+            chk.traces_validated += 1
+            chk.count("resid_identity_ok")
+
+
+
+# ---------------------------------------------------------------------------------------------- zvec / qvec shift (buffers)
+def check_shift_alias(chk, g, consts):
+    """Ties `lanczos_shift_no_alias` / the driver's `rotshift` to the real loop: closures that return new tensors record the
+    storage of every argument and result (all kept alive, so a storage address is a faithful buffer id).  Numbering as in the Lean
+    model (initial names 0..4, iteration i allocates prod = 5+2i, qvec_curr = 6+2i): the argument of the (i+1)-th matmul call must
+    be the buffer the model binds to `qvec_prev1` after i iterations, the argument of the preconditioner in iteration i must be the
+    buffer bound to `prod` (`zvec_curr` is `prod` updated in place)."""
+    from linear_operator.utils.minres import minres
+    n, iters_wanted = 5, 6
+    A = spd(n, 10.0, "uniform", g)
+    dg = (torch.rand(n, 1, generator=g, dtype=F64) + 0.5)
+    rhs = torch.randn(n, 2, generator=g, dtype=F64)
+    keep, ids, ev = [], {}, []
+    nxt = [5]
+
+    def sid(t):
+        return t.untyped_storage().data_ptr()
+
+    def mm(v):
+        keep.append(v)
+        out = A @ v
+        keep.append(out)
+        if len([e for e in ev if e[0] == "mm"]) >= 1:      # the call before the loop only sizes `prod`
+            ids[sid(out)] = nxt[0]
+        ev.append(("mm", sid(v), sid(out)))
+        return out
+
+    def pc(v):
+        keep.append(v)
+        out = dg * v
+        keep.append(out)
+        if not any(e[0] == "pc" for e in ev):
+            ids[sid(v)], ids[sid(out)] = 1, 3                # zvec_prev1, qvec_prev1 before the loop
+        else:
+            ids[sid(out)] = nxt[0] + 1
+            nxt[0] += 2
+        ev.append(("pc", sid(v), sid(out)))
+        return out
+
+    with warnings.catch_warnings():
+        warnings.simplefilter("ignore")
+        minres(mm, rhs.clone(), preconditioner=pc, max_iter=iters_wanted - 2)
+    loop_mm = [e for e in ev if e[0] == "mm"][1:]
+    loop_pc = [e for e in ev if e[0] == "pc"][1:]
+    outs = chk.run_driver("C11", [f"rotshift {k}" for k in range(len(loop_mm) + 1)])
+    if outs is None:
+        return
+    cell = "C11/minres/shift-alias"
+    chk.case(cell, nontrivial=True, sample=False)
+    what = None
+    envs = []
+    for o in outs:
+        try:
+            envs.append({kv.split(":")[0]: int(kv.split(":")[1]) for kv in o.split(" ")[0].split("=", 1)[1].split(",")})
+        except Exception:
+            what = what or "driver rejected the line: " + o[:60]
+    if what is None:
+        if len(loop_mm) != iters_wanted or len(loop_pc) != iters_wanted:
+            what = f"{len(loop_mm)} matmul / {len(loop_pc)} preconditioner calls in the loop, expected {iters_wanted}"
+    if what is None:
+        for i in range(iters_wanted):
+            a = ids.get(loop_mm[i][1])
+            if a != envs[i]["qvec_prev1"]:
+                what = what or f"iteration {i}: matmul_closure received buffer {a}, the model binds qvec_prev1 to {envs[i]['qvec_prev1']}"
+            z = ids.get(loop_pc[i][1])
+            if z != envs[i + 1]["prod"] or envs[i + 1]["prod"] != envs[i + 1]["zvec_prev1"]:
+                what = what or f"iteration {i}: preconditioner received buffer {z}, the model binds prod / zvec_prev1 to {envs[i + 1]['prod']} / {envs[i + 1]['zvec_prev1']}"
+            live = [envs[i]["zvec_prev2"], envs[i]["zvec_prev1"], envs[i]["qvec_prev1"]]
+            if len(set(live)) != 3:
+                what = what or f"iteration {i}: model binds live names to {live}"
+    if what:
+        chk.corr_break(cell, what, {"check": "shift-alias"})
+    else:
+        chk.traces_validated += 1
+        chk.count("shift_alias_ok")
+
+
 # ---------------------------------------------------------------------------------------------- shapes (exact)
 def check_shapes(chk, g, consts):
     """Every (shift kind, rhs rank, batch) combination: real output shape = Lean `outShape` = documented shape."""
@@ -784,6 +968,25 @@ def check_ciq(chk, g, rng, n, fam, kappa, batch, rbatch_extra, cols, inverse, Q,
     es = float(((solves - xq).norm(dim=-2) / xq.norm(dim=-2)).max())
     if not es <= (1e-7 * max(1.0, kappa) if exact_est else 2e-3):
         chk.violation(cell + "/solves", f"returned solves differ from {'K ' if not inverse else ''}(-K + s_q I)^-1 b: relative error {es:.3e}", pl)
+    # ---- `ciq_reduction` on the real outputs: with the eigen-decomposition K = U diag(lam) U^T (torch.linalg.eigh) and the
+    # SCALAR rule rho_i = sum_q w_q / (s_q - lam_i) built from the returned weights and shifts, the returned weighted sum must be
+    # U diag(rho) U^T b (K U diag(rho) U^T b when not inverse), and the matrix error is bounded by the worst scalar error
+    lam, U = torch.linalg.eigh(A)
+    rho = (weights.squeeze(-1) / (shifts[1:].unsqueeze(-1) - lam)).sum(0)
+    target = lam.rsqrt()
+    scal_err = float(((rho - target).abs() / target).max())
+    if not inverse:
+        rho = rho * lam
+    red = U @ (rho.unsqueeze(-1) * (U.mT @ rhs))
+    er = float(((res - red).norm(dim=-2) / red.norm(dim=-2)).max())
+    slack = 1e-7 * max(1.0, kappa) if exact_est else 2e-3
+    if not er <= slack:
+        chk.corr_break(cell + "/reduction", f"sum_q w_q solves_q differs from U diag(sum_q w_q/(s_q - lam_i)) U^T b (theorem ciq_reduction, returned weights/shifts): relative error {er:.3e}", pl)
+    elif not err <= scal_err * (1 + 1e-6) * max(1.0, kappa ** 0.5 if not inverse else 1.0) + slack:
+        chk.corr_break(cell + "/reduction", f"matrix error {err:.3e} exceeds the worst scalar quadrature error {scal_err:.3e} of the returned rule", pl)
+    else:
+        chk.traces_validated += 1
+        chk.count("ciq_reduction_ok")
     chk.count("ciq_cases")
     # ---- correspondence lines, one per batch member (first column): the Lean plumbing fed with THAT member's recorded
     # eigenvalue estimates and with elliptic-function values computed here by scipy (independently of the library's calls)
@@ -1220,11 +1423,12 @@ def run(chk):
                 "classes with and without an active preconditioner; CIQ sampling with identity noise. Values seed-random; distinct = distinct cell + data; "
                 "non-trivial = n > 1. Correspondence: Lean model on binary64 (closure-argument trajectory while beta is robustly positive, iteration count, solutions; "
                 "CIQ shifts/weights/solves from recorded ellipk/ellipj outputs; shapes exactly), cases whose iteration count changes under a 1e-3 perturbation of the "
-                "tolerance are discarded")
+                "tolerance are discarded; residual identity: true residual norm of the real result after 3..n iterations (n 3-9, no preconditioner) = model scale output = "
+                "dense Krylov least-squares optimum; CIQ reduction: returned weighted sum = eigen-reduction with the returned weights/shifts; buffer identities of the Lanczos vectors")
     chk.assumptions += ["matmul_closure / preconditioner closures are pure, linear, symmetric (positive definite for the preconditioner)",
                         "floating-point rounding is not modelled: theorems are over ordered fields with an exact square root; the gap is bridged by toleranced "
                         "correspondence (1e-6 relative float64) and by tolerances derived from the stopping tolerance in the implementation checks",
-                        "scipy.special.ellipk / ellipj are correct; quadrature accuracy (Hale-Higham-Trefethen) and MINRES residual optimality are not proved, only checked numerically",
+                        "scipy.special.ellipk / ellipj are correct; quadrature accuracy (Hale-Higham-Trefethen) is not proved, only checked numerically (the matrix statement is reduced to the scalar rule by theorem ciq_reduction); MINRES optimality / residual norm are proved in exact arithmetic for iterations before the clamp is active and checked on the real code by check_residual_identity",
                         "torch.linalg.solve / eigh / eigvalsh (float64) as dense references"]
     translator_crosscheck(chk, consts)
     consts = with_defaults(consts)
@@ -1235,6 +1439,8 @@ def run(chk):
     # ---- correspondence
     run_correspondence(chk, corr_scenarios(g, rng, 60 if quick else 300), consts)
     check_shapes(chk, g, consts)
+    check_residual_identity(chk, g, rng, consts, 20 if quick else 80)
+    check_shift_alias(chk, g, consts)
     # ---- property on the implementation: minres
     for sc in property_scenarios(chk, g, rng):
         chk.count("fam:" + sc["fam"])
@@ -1274,7 +1480,7 @@ def replay(chk, payload):
     consts = with_defaults(c11_minres.generate())
     p = payload.get("payload") or {}
     kind = p.get("check")
-    if kind in ("solve", "scaling", "corr") and "A" in p:
+    if kind in ("solve", "scaling", "corr", "resid") and "A" in p:
         sc = sc_from_payload(p)
         if kind == "solve":
             check_solve(chk, sc, consts)
